@@ -208,6 +208,10 @@ class _Time:
         return getattr(self._real, n)
 
 
+def _refusing(pid, time_accepted):
+    raise RuntimeError('the accept callback refuses this job')
+
+
 class _Unpicklable:
     """fails to pickle, with one of several error classes (picked by the job number)"""
 
@@ -360,8 +364,10 @@ class WorkerAdapter:
             self.inq._writer.send((bp.TASK, (j, None, task, (j,), {})))
             # parent-side handle for the handshake
             bp.job_counter = iter([j])
+            refuse = bool(self.c.get('Refusals')) and j % 2 == 0
             self.jobs[j] = bp.ApplyResult(self.cache, None, send_ack=self._send_ack
-                                          if self.c['Synack'] else None)
+                                          if self.c['Synack'] else None,
+                                          accept_callback=_refusing if refuse else None)
         elif n == 'FeedSentinel':
             self.inq._writer.send(None)
         elif n == 'Tick':
@@ -373,7 +379,10 @@ class WorkerAdapter:
             self.rd += 1
             if typ == bp.ACK:
                 job, i, t, pid, fd = args
-                self.jobs[job]._ack(i, t, pid, fd)
+                try:                      # as ResultHandler.on_ack calls it
+                    self.jobs[job]._ack(i, t, pid, fd)
+                except (KeyError, AttributeError):
+                    pass
             elif typ == bp.READY:
                 self.counter._v += 1
         elif n == 'Take':
